@@ -37,3 +37,13 @@ func calibrate() float64 {
 }
 
 func scaled(d time.Duration) time.Duration { return time.Duration(float64(d) * loadScale) }
+
+// banWindow is the ban duration the observing node of a host scenario is configured with: 1 s on a quiet machine, whole seconds
+// more under load, so that the refusal checks (polls, dials) still fall inside the ban.
+func banWindow() time.Duration {
+	n := int(loadScale + 0.999)
+	if n < 1 {
+		n = 1
+	}
+	return time.Duration(n) * time.Second
+}
